@@ -1129,7 +1129,22 @@ def find_domain_rule(model, rep, r, rule):
         if isinstance(s, ast.Assign) and ast.unparse(s.value) == "self.%s[%s]" % (r["PARENTS"], N) and isinstance(s.targets[0], ast.Name):
             pvar = s.targets[0].id
     sel = "%s[%s]" % (pvar, fm.result) if pvar else None
-    good = sel is not None and ("rx.ancestors(self._g, %s)" % sel) in txt and ("self._g[%s]._params['name']" % sel) in txt and "in_degree" in txt
+    good = False
+    if sel is not None:
+        anc = [x for x in after if isinstance(x, ast.Assign) and isinstance(x.targets[0], ast.Name) and ast.unparse(x.value).replace(" ", "") == "rx.ancestors(self._g,%s)" % sel]
+        if len(anc) == 1:
+            AN = anc[0].targets[0].id
+            empties = [x for x in after if isinstance(x, ast.If) and ast.unparse(x.test).replace(" ", "") in ("%s==set()" % AN, "not%s" % AN, "len(%s)==0" % AN)
+                       and len(x.body) == 1 and isinstance(x.body[0], ast.Return) and ast.unparse(x.body[0].value).replace('"', "'") == "self._g[%s]._params['name']" % sel and not x.orelse]
+            walks = []
+            for lp in after:
+                if isinstance(lp, ast.For) and isinstance(lp.target, ast.Name) and is_name(lp.iter, AN) and len(lp.body) == 1 and isinstance(lp.body[0], ast.If):
+                    i_ = lp.target.id
+                    iff = lp.body[0]
+                    if ast.unparse(iff.test).replace(" ", "") in ("self._g.in_degree(%s)==0" % i_, "notself._g.in_degree(%s)" % i_) and len(iff.body) == 1 and isinstance(iff.body[0], ast.Return) \
+                            and ast.unparse(iff.body[0].value).replace('"', "'") == "self._g[%s]._params['name']" % i_ and not iff.orelse:
+                        walks.append(lp)
+            good = len(empties) == 1 and len(walks) == 1 and empties[0].lineno < walks[0].lineno
     if not good:
         ok = False
         rep.violation(rule, "system.System._find_domain", where, "the mux's domain is not the root source above its selected input", "mux root walk")
